@@ -284,7 +284,14 @@ def rule_order_and_recursion(ctx: Ctx) -> None:  # noqa: C901, PLR0912
         if "ndarray" in types:
             n4 += 1
             dfn = Defs(fn)
-            flat = [c for e in exprs for c in ast.walk(e) if isinstance(c, ast.Call) and dotted(c.func) in ("tuple", "list") and c.args and any(w in norm(dfn.resolve(c.args[0])) for w in ("flatten", "ravel", "flat", "tolist"))]
+            def embeds_flat(a: ast.AST) -> bool:
+                """tuple(<the flattened array itself>) - not tuple(<converter applied to each element of it>)."""
+                r = dfn.resolve(a)
+                if isinstance(r, (ast.GeneratorExp, ast.ListComp)):
+                    return not _calls(r.elt, CONVERTERS) and any(w in norm(r) for w in ("flatten", "ravel", "flat", "tolist"))
+                return any(w in norm(r) for w in ("flatten", "ravel", "flat", "tolist")) and not _calls(r, CONVERTERS)
+
+            flat = [c for e in exprs for c in ast.walk(e) if isinstance(c, ast.Call) and dotted(c.func) in ("tuple", "list") and c.args and embeds_flat(c.args[0])]
             # the raw buffer of an object array holds pointers, not values
             flat += [c for e in exprs for c in ast.walk(e) if isinstance(c, ast.Call) and isinstance(c.func, ast.Attribute) and c.func.attr in ("tobytes", "tostring", "view") and norm(dfn.resolve(c.func.value)).split(".")[0] == "obj"]
             unguarded = []
